@@ -98,6 +98,9 @@ class MTArray(Generic[NPT]):
                 # Make sure we have a writeable array for Torch. Client code
                 # still shouldn't write to it.
                 arr = np.require(self.numpy(), requirements=["C", "W"])
+                if any(s < 0 for s in arr.strides):
+                    # views of at most one element count as contiguous whatever their strides
+                    arr = arr.copy()
                 return torch.tensor(arr)
 
         if device:
